@@ -568,7 +568,12 @@ PROPS = {
     },
     "C01": {
         "class_prefixes": ["c01-", "c06-frame-too-large", "c06-garbage", "c06-advertised-mfs", "c06-ssplit-fields", "harness-crash"],
-        "subs": [{"name": "frame", "n_quick": 300, "n_thorough": 6000, "model": "coq/Frame/SessionSplit.v, coq/Frame/Transfer.v",
+        "subs": [{"name": "lwin", "n_quick": 6, "n_thorough": 60, "oracle": False,
+             "rule": "the `ord` cases: a sending link on a listener-side session whose peer window (1..3) closes while 2..5 messages of growing length are "
+                     "sent; the window re-opens through a flow that names a second, pipelined link the application has not accepted, the application sends "
+                     "1..3 more messages on the first link, then a flow for the first link: the payloads must reach the wire in the order sent, all of them "
+                     "(classes c01-listener-overtake, c01-listener-lost)"},
+            {"name": "frame", "n_quick": 300, "n_thorough": 6000, "model": "coq/Frame/SessionSplit.v, coq/Frame/Transfer.v",
              "rule": "the ssplit cases of C06/C07: a transfer the link has already cut (more = true, because of the peer's max-message-size) and that the session cuts "
                      "again must keep its more flag on the last piece - otherwise the receiver ends the delivery early and the message does not arrive intact "
                      "(class c06-ssplit-fields)"},
